@@ -73,6 +73,17 @@ Theorem execution_terminates : forall S fuel q root,
 Proof. exact ProofsMain.execution_terminates. Qed.
 Print Assumptions execution_terminates.
 
+(** The scheduler itself, for any fan-out: the pool of pending units is unbounded (there is no cap on
+    units in flight, as in /repo), a step runs any pending unit and adds the units it returns; whenever
+    the forest under the pending units is finite ([P]), there is a bound - the number of units of the
+    forest - such that after that many steps, in whatever order, nothing is pending: every enqueued unit
+    has been run, and Run returns. *)
+Theorem scheduler_terminates_for_any_fan_out : forall Q S fuel st0 rs,
+  Forall2 (P Q S fuel) (st_pending st0) rs ->
+  exists n, forall sched, n <= List.length sched -> complete (run_sched Q S fuel sched st0) = true.
+Proof. exact ProofsSched.termination. Qed.
+Print Assumptions scheduler_terminates_for_any_fan_out.
+
 (** The lemma behind both: a work unit, whatever its mode and however it was split, fills exactly the
     nodes of the reference results of its (source, destination) pairs, together with the forest of units
     it schedules ([U]); resolveBatch over n sources equals n single evaluations ([R]). *)
